@@ -34,6 +34,8 @@ MC_DAMAGE = dict(coverage=False, name="MC_Damage", module="MC_Wal.tla", cfg="MC_
 MC_NOOP = dict(coverage=False, name="MC_Noop", module="MC_Wal.tla", cfg="MC_Noop_quick.cfg", expect_actions=WAL_STEPS + ["Restart"], timeout=3000)
 MC_READER = dict(name="MC_Reader", module="Reader.tla", cfg="MC_Reader.cfg", expect_actions=["ReadFrame", "Header", "IntoWriter", "GcOpenOrCreate"])
 MC_CODEC = dict(name="MC_Codec", module="MC_Codec.tla", cfg="MC_Codec.cfg", coverage=False)
+MC_STALE = dict(name="MC_Stale", module="Stale.tla", cfg="MC_Stale.cfg", expect_actions=["AppendEntry", "Close", "Damage", "Open"])
+MC_STALE_REPAIR = dict(name="MC_Stale_repair", module="Stale.tla", cfg="MC_Stale_repair.cfg", expect_actions=["AppendEntry", "Close", "Damage", "Open"])
 MC_FRAMES = dict(name="MC_Frames", module="MC_Frames.tla", cfg="MC_Frames_quick.cfg", cfg_thorough="MC_Frames_tiny.cfg")
 MC_FRAMES_REAL = dict(name="MC_Frames_real", module="MC_Frames.tla", cfg="MC_Frames_real.cfg")
 
@@ -182,7 +184,7 @@ RECIPES = {
     "C08": dict(
         level="model_checking",
         monitors={"C08"},
-        mc=[MC_DAMAGE],
+        mc=[MC_DAMAGE, MC_STALE, MC_STALE_REPAIR],
         runs=[dict(cmd="damage", gen="small:20,batch:8,gc-heavy:6,big:3,names:3,aim-batch:10,aim-recreate:10", policy="always_flush",
                    opts={"classes": "payload,crc,hdr,noise", "noise": "300"},
                    opts_thorough={"classes": "payload,crc,hdr,noise", "noise": "1500", "thorough": True}, thorough_factor=8),
